@@ -7,7 +7,7 @@ from harness import lts_check, c11_real
 from vlib import paths
 ID = 'C11'
 RUNNER = 'LTS'
-COQ_ROOTS = ['Props/C11.v', 'Props/C11_take.v', 'Props/C11_sax.v', 'Props/E2E.v', 'GenProps/Session_consts.v']
+COQ_ROOTS = ['Props/C11.v', 'Props/C11_take.v', 'Props/C11_sax.v', 'Props/C11_connect.v', 'Props/E2E.v', 'GenProps/Session_consts.v']
 RULE = ('A case is (scenario, schedule): client programs (sync/async requests, take_notification, await-disconnect), a scripted '
         'server (replies in any order, duplicates, unknown/missing ids, notifications, unknown messages, EOF/error) and the list of '
         'scheduler decisions at every synchronisation point (lock acquire, event set/wait, queue put/get, connected read, '
@@ -26,7 +26,15 @@ RULE = ('A case is (scenario, schedule): client programs (sync/async requests, t
         '(block, timeout) space of Manager.take_notification: block in {True, False, 1, 0} x timeout in {None, 0, 0.0, 0.05-0.15, '
         '30} in positional / keyword / default forms, on an empty queue (None at once; None after t, not before, not later than '
         't + 1 s; untimed blocking take still waiting after 0.2 s and returning the notification sent then; long timeout with an '
-        'arrival inside it) and on a filled queue (head at once for every combination, then empty).')
+        'arrival inside it) and on a filled queue (head at once for every combination, then empty). '
+        'real_wire also runs the Junos profile in streaming-filter mode (use_filter=True, requests with and without filter_xml) and a '
+        'deterministic family (headshare) in which the read that completes a multi-read message also carries the first e octets of the '
+        'next one. (d) real_connect - the connect window: server hello + k notifications cut into reads that are readable before '
+        '_post_connect begins / at any time / after the client hello / after _post_connect returned, real _post_connect (thread M), real '
+        'Session.run (thread W) and a scripted server under the deterministic scheduler (run-to-completion, depth-first with a '
+        'pre-emption bound, seeded random schedules); takes through Manager.take_notification after connect; oracle: every notification '
+        'sent behind the hello is returned once, in order, intact; trace validated against Model/ConnectWindow.v. real_live cases with '
+        'hello_with=j write the first j notifications in the same write as the server hello (free-running threads).')
 ASSUMES = ['CPython executes the code between two instrumented synchronisation points atomically with respect to the other managed threads (GIL + cooperative scheduler)',
            'uuid4 message-ids are unique (fresh-id oracle of the LTS; a trace violating it is rejected by the model)',
            'threading.Event/Lock/queue.Queue/selectors behave as the instrumented stand-ins (tools/harness/sched.py)']
